@@ -65,10 +65,6 @@ Proof.
   rewrite H1. simpl. rewrite N.eqb_sym, H1. simpl. eauto.
 Qed.
 
-Lemma keepP_under_key wild ho key r x :
-  keepP wild ho (key ++ r) (x) <-> keepP wild ho (key ++ r) x.
-Proof. tauto. Qed.
-
 (* prunable = nothing held, no children, no hook *)
 Lemma prunable_paths n : prunable n = true -> paths n = [].
 Proof. destruct n as [key [d|] nm f [h|] [|k ks]]; simpl; try discriminate; reflexivity. Qed.
@@ -164,3 +160,162 @@ Proof.
     rewrite (key_pcs_lit (Node key None nm f None [c])) by (simpl; auto; apply Hk).
     rewrite (key_pcs_lit c) by (auto; apply Hkc). rewrite nkey_set_key. simpl nkey. now rewrite map_app.
 Qed.
+
+(* ---- the node _match returned ---- *)
+Lemma kids_entries_nonempty ks e :
+  Forall (fun k => key_ok (nkey k)) ks -> In e (kids_entries ks) -> fst e <> [].
+Proof.
+  intros Hok Hin. destruct e as [p x]. apply in_kids_entries in Hin. destruct Hin as (k & Hk & Hin).
+  rewrite Forall_forall in Hok. destruct (kid_entry_first k p x (Hok k Hk) Hin) as [[_ [p0 ->]]|[_ [p0 ->]]]; discriminate.
+Qed.
+
+Lemma rm_target_spec cut ho n :
+  wf n -> cut && ho = false ->
+  exists n', (rm_target cut ho n = RmKeep n' /\ prunable n' = false \/
+              rm_target cut ho n = RmPrune n' /\ prunable n' = true) /\
+             wf n' /\ nkey n' = nkey n /\ nflt n' = nflt n /\
+             forall e, In e (paths n') <-> In e (paths n) /\ (ho = true \/ (cut = false /\ fst e <> [])).
+Proof.
+  destruct n as [key d nm f h ks]. intros Hw Hch. apply wf_inv in Hw. destruct Hw as (W1 & W2 & W3 & W4).
+  unfold rm_target.
+  assert (Hfin : forall h' ks1 (Hks1 : ks1 = (if cut then [] else ks)),
+            exists n', ((if prunable (Node key None [] f h' ks1) then RmPrune (Node key None [] f h' ks1)
+                         else RmKeep (Node key None [] f h' ks1)) = RmKeep n' /\ prunable n' = false \/
+                        (if prunable (Node key None [] f h' ks1) then RmPrune (Node key None [] f h' ks1)
+                         else RmKeep (Node key None [] f h' ks1)) = RmPrune n' /\ prunable n' = true) /\
+                       n' = Node key None [] f h' ks1).
+  { intros h' ks1 _. exists (Node key None [] f h' ks1). split; [|reflexivity].
+    destruct (prunable (Node key None [] f h' ks1)) eqn:E; [right | left]; auto. }
+  assert (Hwf1 : forall h' ks1, ks1 = (if cut then [] else ks) -> wf (Node key None [] f h' ks1)).
+  { intros h' ks1 ->. destruct cut; constructor; auto; constructor. }
+  destruct ho.
+  - (* hooks only *)
+    destruct cut; [discriminate|]. destruct d as [x|].
+    + exists (Node key (Some x) nm f None ks). split; [left; split; reflexivity|].
+      split; [now constructor|]. repeat split; auto; tauto.
+    + destruct (Hfin None ks eq_refl) as (n' & Hn' & ->). exists (Node key None [] f None ks).
+      split; [exact Hn'|]. split; [now apply Hwf1|]. repeat split; auto; try tauto;
+        rewrite !paths_node in *; simpl in *; tauto.
+  - destruct (Hfin h (if cut then [] else ks) eq_refl) as (n' & Hn' & ->).
+    exists (Node key None [] f h (if cut then [] else ks)). split; [exact Hn'|].
+    split; [now apply Hwf1|]. split; [reflexivity|]. split; [reflexivity|].
+    intros e. rewrite !paths_node. simpl app. destruct cut.
+    + simpl. split; [intros [] | intros (_ & [E|[E _]]); discriminate].
+    + split.
+      * intros Hin. split; [apply in_or_app; now right|]. right. split; [reflexivity|].
+        eapply kids_entries_nonempty; eauto.
+      * intros (Hin & [E|[_ Hne]]); [discriminate|]. apply in_app_or in Hin. destruct Hin as [Hin|Hin]; [|exact Hin].
+        destruct d; [|destruct Hin]. destruct Hin as [<-|[]]. now elim Hne.
+Qed.
+
+(* ---- one child ---- *)
+Definition rmk_ok (k : node) (wild ho : bool) (route : str) (r : rmres) : Prop :=
+  match r with
+  | RmNone => forall e0, In e0 (paths k) -> keepP wild ho route (key_pcs k ++ fst e0)
+  | RmKeep k' =>
+    wf k' /\ key_ok (nkey k') /\ khead k' = khead k /\
+    forall e, In e (kid_entries k') <->
+              exists e0, In e0 (paths k) /\ keepP wild ho route (key_pcs k ++ fst e0) /\ e = pre (key_pcs k) e0
+  | RmPrune k' =>
+    wf k' /\ nkey k' <> [] /\ khead k' = khead k /\ prunable k' = true /\
+    forall e0, In e0 (paths k) -> ~ keepP wild ho route (key_pcs k ++ fst e0)
+  end.
+
+(* the statement for a node seen from its parent: [route] is what is left of
+   the pattern below this node's key *)
+Definition rmn_ok (k : node) (wild ho : bool) (route : str) (r : rmres) : Prop :=
+  match r with
+  | RmNone => forall e0, In e0 (paths k) -> keepP wild ho route (fst e0)
+  | RmKeep k' =>
+    wf k' /\ key_ok (nkey k') /\ khead k' = khead k /\
+    forall e, In e (kid_entries k') <->
+              exists e0, In e0 (paths k) /\ keepP wild ho route (fst e0) /\ e = pre (key_pcs k) e0
+  | RmPrune k' =>
+    wf k' /\ nkey k' <> [] /\ khead k' = khead k /\ prunable k' = true /\
+    forall e0, In e0 (paths k) -> ~ keepP wild ho route (fst e0)
+  end.
+
+Lemma keepP_shift k wild ho r p0 :
+  key_ok (nkey k) ->
+  (keepP wild ho (nkey k ++ r) (key_pcs k ++ p0) <-> keepP wild ho r p0).
+Proof.
+  intros Hk. unfold keepP. rewrite rstr_app, (rstr_key k Hk). destruct wild.
+  - now rewrite prefixb_app_same.
+  - split; intros [H|H]; auto; right; intros E; apply H; [now rewrite E | now apply app_inv_head in E].
+Qed.
+
+Lemma rm_kid_ok rec k wild ho c0 r :
+  wf k -> key_ok (nkey k) -> khead k = c0 -> wild && ho = false ->
+  (forall route', rmn_ok k wild ho route' (rec k route')) ->
+  rmk_ok k wild ho (c0 :: r) (rm_kid rec wild ho k (c0 :: r)).
+Proof.
+  intros Hw Hk Hh Hwh IH. unfold rm_kid. set (route := c0 :: r).
+  destruct (prefixb (nkey k) route) eqn:Ep.
+  - pose proof (prefixb_split _ _ Ep) as Hs. specialize (IH (skipn (length (nkey k)) route)).
+    destruct (rec k (skipn (length (nkey k)) route)) as [|k'|k']; simpl in *.
+    + intros e0 Hin. rewrite Hs. apply keepP_shift; auto.
+    + destruct IH as (A & B & C & D). split; [exact A|]. split; [exact B|]. split; [exact C|].
+      intros e. split.
+      * intros He. apply D in He. destruct He as (e0 & H1 & H2 & H3). exists e0. split; [exact H1|].
+        split; [rewrite Hs; now apply keepP_shift | exact H3].
+      * intros (e0 & H1 & H2 & H3). apply D. exists e0. split; [exact H1|]. split; [|exact H3].
+        rewrite Hs in H2. now apply keepP_shift in H2.
+    + destruct IH as (A & B & C & D & E). split; [exact A|]. split; [exact B|]. split; [exact C|].
+      split; [exact D|].
+      intros e0 Hin Hkeep. apply (E e0 Hin). rewrite Hs in Hkeep. now apply keepP_shift in Hkeep.
+  - destruct (wild && prefixb route (nkey k)) eqn:Ew.
+    + (* prefix removal: the pattern ends inside this key *)
+      apply andb_true_iff in Ew. destruct Ew as [-> Epk]. simpl in Hwh. subst ho.
+      destruct (rm_target_spec true false k Hw eq_refl) as (k' & Hr & A & B & C & D).
+      assert (Hall : forall e0, In e0 (paths k) -> ~ keepP true false route (key_pcs k ++ fst e0)).
+      { intros e0 _ [E|E]; [discriminate|]. rewrite rstr_app, (rstr_key k Hk) in E.
+        apply prefixb_spec in Epk. destruct Epk as [t Ht]. rewrite Ht, <- app_assoc in E.
+        now rewrite prefixb_app in E. }
+      destruct Hr as [[-> Hp]|[-> Hp]]; simpl.
+      * split; [exact A|]. split; [now rewrite B|]. split; [unfold khead; now rewrite B|].
+        intros e. split.
+        -- intros He. destruct e as [pe xe]. apply in_kid_entries in He. destruct He as (p0 & -> & Hp0). apply D in Hp0.
+           destruct Hp0 as (_ & [E|[E _]]); discriminate.
+        -- intros (e0 & H1 & H2 & _). exfalso. eapply Hall; eauto.
+      * split; [exact A|]. split; [rewrite B; apply Hk|]. split; [unfold khead; now rewrite B|].
+        split; [exact Hp | exact Hall].
+    + (* mismatch: nothing below is touched *)
+      simpl. intros e0 Hin. unfold keepP. rewrite rstr_app, (rstr_key k Hk). right. destruct wild.
+      * simpl in Ew. destruct (prefixb route (nkey k ++ rstr (fst e0))) eqn:E; [|reflexivity].
+        destruct (prefix_comparable _ _ _ E); congruence.
+      * intros E. rewrite <- E in Ep. now rewrite prefixb_app in Ep.
+Qed.
+
+(* ---- the children loop ---- *)
+Lemma rm_go_spec rec wild ho c0 route ks :
+  Forall (fun k => key_ok (nkey k)) ks ->
+  match rm_go rec wild ho c0 route ks with
+  | None => forall k, In k ks -> khead k <> c0
+  | Some (r, rb) =>
+    exists pre k post, ks = pre ++ k :: post /\ (forall x, In x pre -> khead x <> c0) /\ khead k = c0 /\
+                       r = rm_kid rec wild ho k route /\ forall k', rb k' = pre ++ k' :: post
+  end.
+Proof.
+  induction ks as [|k ks IH]; intros Hok; simpl; [tauto|].
+  inversion Hok as [|? ? Hk Hoks]; subst. destruct (head_is k c0) eqn:E.
+  - exists [], k, ks. simpl. repeat split; auto. apply head_is_khead; [apply Hk | exact E].
+  - specialize (IH Hoks).
+    assert (Hne : khead k <> c0) by (intros E2; apply head_is_khead in E2; [congruence | apply Hk]).
+    destruct (rm_go rec wild ho c0 route ks) as [[r rb]|].
+    + destruct IH as (pre & k1 & post & -> & H1 & H2 & H3 & H4). exists (k :: pre), k1, post. simpl.
+      repeat split; auto; [intros x [<-|Hx]; auto | intros k'; now rewrite H4].
+    + intros x [<-|Hx]; auto.
+Qed.
+
+Lemma other_kid_kept x wild ho c0 r p e :
+  key_ok (nkey x) -> khead x <> c0 -> In (p, e) (kid_entries x) -> keepP wild ho (c0 :: r) p.
+Proof.
+  intros Hk Hh Hin. apply in_kid_entries in Hin. destruct Hin as (p0 & -> & _).
+  unfold keepP. right. rewrite rstr_app, (rstr_key x Hk). unfold khead in Hh.
+  destruct (nkey x) as [|y s]; [destruct Hk; contradiction|]. simpl in Hh. destruct wild.
+  - unfold prefixb. simpl. destruct (N.eqb_spec c0 y); [congruence | reflexivity].
+  - simpl. intros E. injection E as E _. congruence.
+Qed.
+
+Lemma own_kept wild ho c0 r : keepP wild ho (c0 :: r) [].
+Proof. right. destruct wild; [reflexivity | discriminate]. Qed.
